@@ -588,6 +588,32 @@ theorem maxLLIdx_spec (o : SOps V) (ss : List (Sample V)) :
   rw [List.zipIdx_map_fst] at this
   exact this.symm
 
+/-- **max_log_posterior_index is the first maximum of the posterior** (`np.argmax`) when no posterior is NaN and
+`<` is a strict weak order: it is reported with its own position, every earlier sample has a strictly smaller
+posterior and no later one a larger one. (With a NaN among the posteriors `np.argmax` returns the first NaN:
+`npBetter`, compared with the code on lists containing NaN.) -/
+theorem maxPostIdx_first_max (o : SOps V) (nan : V → Bool) (hnan : ∀ x, nan x = false)
+    (htr : ∀ a b c, o.lt a b = true → o.lt b c = true → o.lt a c = true)
+    (hnt : ∀ a b c, o.lt a c = true → o.lt a b = true ∨ o.lt b c = true)
+    (ss : List (Sample V)) (b : Sample V × Nat) (h : maxPostIdx o nan ss = some b) :
+    ss[b.2]? = some b.1 ∧ ∃ pre post, ss.zipIdx = pre ++ b :: post ∧
+      (∀ s ∈ pre, o.lt (s.1.post o) (b.1.post o) = true) ∧
+      (∀ s ∈ post, o.lt (b.1.post o) (s.1.post o) = false) := by
+  refine ⟨getElem?_of_mem_zipIdx ss b.1 b.2 (pickFirst_mem _ _ b h), ?_⟩
+  have hb : (fun (x y : Sample V × Nat) => npBetter o nan (x.1.post o) (y.1.post o))
+      = (fun x y => o.lt ((fun (s : Sample V × Nat) => s.1.post o) x) ((fun (s : Sample V × Nat) => s.1.post o) y)) := by
+    funext x y; simp [npBetter, hnan]
+  unfold maxPostIdx at h
+  rw [hb] at h
+  exact pickFirst_first_max o.lt (fun (s : Sample V × Nat) => s.1.post o) htr hnt ss.zipIdx b h
+
+/-- posteriors −5, 3, 6, 6: the first of the two largest is at position 2 -/
+example : maxPostIdx intOps (fun _ => false) [⟨[1], -5, 0, 1⟩, ⟨[2], 3, 0, 1⟩, ⟨[3], 2, 4, 1⟩, ⟨[4], 3, 3, 1⟩]
+    = some (⟨[3], 2, 4, 1⟩, 2) := by decide
+/-- a "NaN" (here: the value 99 is declared one) wins although a larger value follows, and the first one wins -/
+example : maxPostIdx intOps (fun x => x == 99) [⟨[1], 1, 0, 1⟩, ⟨[2], 99, 0, 1⟩, ⟨[3], 200, 0, 1⟩, ⟨[4], 99, 0, 1⟩]
+    = some (⟨[2], 99, 0, 1⟩, 1) := by decide
+
 /-- **minimise.** whatever the likelihood and posterior values (NaN included): every sample `minimise()` keeps
 is the entry of the original list at the position it is reported with, `max_log_likelihood_sample` is among
 them, and at most two are kept -/
